@@ -7,5 +7,6 @@ CONSTANTS
   CtlLensOf <- McCtlLensOf
   MaxCtlOf <- McMaxCtlOfQ
   ReadSizesOf <- McReadSizesOfQ
+  ReadBufsOf <- McReadBufsOf
 INVARIANTS Intact AllDelivered PingsIntact SenderConformant PTypeOk
 CHECK_DEADLOCK FALSE
